@@ -258,10 +258,7 @@ theorem Imp.insert_eq (c : TreeCfg) (kd : α) (vd : β) (s s' : Tree α β) (h :
             · exact hj'.2.2.1 h1
             · exact hj'.2.2.2 h1)
 
-/-- `remove`: descent, splice of the in-order successor, `rebalance` over the spliced path, `remove_node`. -/
-theorem Imp.remove_eq (c : TreeCfg) (kd : α) (vd : β) (s s' : Tree α β) (h : s.Inv c) (k : α)
-    (r : Option β) (hr : s.remove k = .ok (s', r)) :
-    Imp.remove (Imp.dflt kd vd) (s.image c kd vd) k = (s'.image c kd vd, r) := by
-  sorry
+/- `remove` (descent, splice of the in-order successor, `rebalance` over the spliced path, `remove_node`) is
+   proved in `Proofs/TreeImpRemove.lean` (`Imp.remove_eq`). -/
 
 end Stevia
